@@ -129,6 +129,13 @@ def build_ops(seed: int, docs: dict[str, dict], tier: str, out_mode: str = "expl
         for _ in range(r.choice([1, 1, 2])):
             ops.append({"op": "USER", "action": r.choice(["mkdir-empty", "dotfiles", "write"]), "where": r.choice(["root", "subdir"]), "n": r.randrange(1000)})
         precreated = True
+    if out_mode != "derived" and not precreated and r.random() < 0.08:
+        # two generate commands WITHOUT --overwrite started at the same time against the location that does not exist yet
+        # (two CI jobs, a double click): their file-system calls are interleaved by a seeded scheduler
+        da = r.choice(names)
+        ops.append({"op": "RACEGEN", "doc": da, "doc_b": da if r.random() < 0.5 else r.choice(names), "meta": meta,
+                    "sched_seed": r.getrandbits(32), "switch_p": r.choice([0.05, 0.2, 0.5, 0.9])})
+        have_gen = True
     for i in range(n):
         c = r.random()
         m = r.choice(METAS) if mixed_meta else meta
@@ -559,8 +566,97 @@ class World:
                 self.do_gen(op, error_at=k, err=op["errno"], label=label, persistent=bool(op.get("persistent")))
         elif kind == "ENUMCRASH":
             self.enum_crash(i, op)
+        elif kind == "RACEGEN":
+            self.do_race(op, label)
         else:
             raise ValueError(kind)
+
+    def do_race(self, op: dict, label: str) -> None:
+        """Two generate commands without --overwrite, as two 'processes' (threads of this interpreter calling the
+        library entry point) whose mutating file-system calls are interleaved by sim.threads.ThreadSched: at every such
+        call the seeded scheduler may let the other one run.  Whatever the interleaving, exactly one may generate; the
+        other must report the existing directory and touch nothing."""
+        import contextlib
+        import io
+        import threading
+        from pathlib import Path
+
+        import openapi_python_client as opc
+        from openapi_python_client.config import Config, ConfigFile, MetaType
+
+        from sim import fsseam
+        from sim import threads as simthreads
+
+        if not self.explicit or self.O is None or os.path.lexists(self.O):
+            self.log.append(f"op {label} RACEGEN skipped (location exists or is derived)")
+            return
+        before_outside = self.outside_snapshot()
+        docs = [op["doc"], op.get("doc_b") or op["doc"]]
+        gens = [{"op": "GEN", "doc": d, "meta": op["meta"], "overwrite": False} for d in docs]
+        cfgs = []
+        for d in docs:
+            cf = ConfigFile.load_from_path(Path(self.cfg))
+            cfgs.append(Config.from_sources(cf, MetaType(op["meta"]), Path(self.docpaths[d]), "utf-8", False, Path(self.O)))
+        idents: dict[int, int] = {}
+        pids: dict[int, int] = {}
+        self.gen_counter += 2
+
+        def runner(i: int):  # type: ignore[no-untyped-def]
+            def run() -> dict:
+                idents[i] = threading.get_ident()
+                pids[threading.get_ident()] = 40_000 + 17 * (self.gen_counter - 1 + i)
+                try:
+                    errs = opc.generate(config=cfgs[i], custom_template_path=Path(self.templates_dir) if self.templates_dir else None)
+                    return {"errors": [(e.level.name, e.header or "", e.detail or "") for e in errs]}
+                except BaseException as e:  # noqa: BLE001
+                    return {"exc": f"{type(e).__name__}: {e}"[:300]}
+            return run
+
+        seam = fsseam.FsSeam(self.P)
+        sched = simthreads.ThreadSched(rng.stream(int(op.get("sched_seed") or 0), "race"), (), float(op.get("switch_p") or 0.2))
+        real_getpid = os.getpid
+        os.getpid = lambda: pids.get(threading.get_ident(), 39_999)  # type: ignore[assignment]
+        os.chdir(self.cwd)
+        fsseam.YIELD = sched.yield_point
+        try:
+            with contextlib.redirect_stdout(io.StringIO()), seam:
+                results = sched.run([runner(0), runner(1)])
+        finally:
+            fsseam.YIELD = None
+            os.getpid = real_getpid  # type: ignore[assignment]
+            os.chdir(self.sandbox)
+        self.log.append(f"op {label} RACEGEN docs={docs} meta={op['meta']} switches={len(sched.switches)} finish={sched.finish_order} -> {[('exc' if 'exc' in r_ else [e[0] for e in r_['errors']]) for r_ in results]}")
+        self.log.extend(seam.lines())
+        self.probe("race-generations")
+        if sched.switches:
+            self.probe("race-interleaved")
+        self.states.add(f"race|{len(sched.switches) > 0}|{sched.finish_order}")
+        self.check_confinement(seam, label, before_outside)
+        ok = [i for i, r_ in enumerate(results) if "errors" in r_ and not any(e[0] == "ERROR" for e in r_["errors"])]
+        refused = [i for i, r_ in enumerate(results) if "errors" in r_ and any(e[0] == "ERROR" and "already exists" in e[2] for e in r_["errors"])]
+        crashed = [i for i, r_ in enumerate(results) if "exc" in r_]
+        if crashed:
+            self.probe("race-exception(not judged here: C06)")
+            self.log.append(f"race exception: {[results[i]['exc'] for i in crashed]}")
+            self.expected_known = False
+            self.had_fault = True
+            return
+        if len(ok) == 2:
+            self.viol("clobbered-without-overwrite", "race:both-generated", f"{label}: two concurrent generate commands without --overwrite BOTH generated into the same new directory (no error for the second); interleaving: {len(sched.switches)} switches, finish order {sched.finish_order}")
+            self.expected_known = False
+            return
+        for i in refused:
+            mine = [r_ for r_ in seam.mutating_ok() if r_.get("tid") == idents.get(i) and not r_.get("foreign")]
+            if mine:
+                self.viol("clobbered-without-overwrite", "race:" + mine[0]["op"], f"{label}: the command that reported 'Directory already exists' still changed the tree: {[(m['op'], m['path']) for m in mine[:5]]}")
+                return
+        if len(ok) == 1 and len(refused) == 1:
+            self.lineage = {self.names_of(gens[ok[0]])}
+            self.check_convergence(gens[ok[0]], label, needs_fault=False)
+            self.expected_known = True
+            self.probe("race-one-winner")
+        else:
+            self.viol("no-error-without-overwrite", "race:outcomes", f"{label}: concurrent commands ended with {[r_.get('errors') for r_ in results]}")
 
     def enum_crash(self, i: int, op: dict) -> None:
         """Enumerate crash indices of one overwrite generation from the current state; each crash is
@@ -641,6 +737,8 @@ def _shape(o: dict) -> str:
         return "G" + ("o" if o.get("overwrite") else "")
     if o["op"] == "USER":
         return "U" + o["action"][0]
+    if o["op"] == "RACEGEN":
+        return "R"
     if o["op"] == "CRASHGEN":
         return "C" + ("t" if o.get("torn") is not None else "") + ("k" if o.get("hard") else "")
     if o["op"] == "DISKERR":
@@ -649,7 +747,7 @@ def _shape(o: dict) -> str:
 
 
 def _brief(o: dict) -> dict:
-    return {k: v for k, v in o.items() if k in ("op", "doc", "meta", "overwrite", "k", "torn", "errno", "action", "where", "n_ops", "hard", "persistent", "enc")}
+    return {k: v for k, v in o.items() if k in ("op", "doc", "meta", "overwrite", "k", "torn", "errno", "action", "where", "n_ops", "hard", "persistent", "enc", "doc_b", "sched_seed", "switch_p")}
 
 
 # ---------------------------------------------------------------------- shrinking
@@ -666,7 +764,7 @@ def shrink_candidates(spec: dict) -> list[dict]:
     def with_ops(new_ops: list[dict]) -> dict:
         s = copy.deepcopy(spec)
         s["ops"] = copy.deepcopy(new_ops)
-        used = {o["doc"] for o in new_ops if "doc" in o}
+        used = {o["doc"] for o in new_ops if "doc" in o} | {o["doc_b"] for o in new_ops if o.get("doc_b")}
         s["docs"] = {k: v for k, v in s["docs"].items() if k in used} or s["docs"]
         return s
 
@@ -694,10 +792,10 @@ def shrink_candidates(spec: dict) -> list[dict]:
             out.append(with_ops([dict(x, meta="none") if "meta" in x else x for x in ops]))
             break
     # all ops on one document
-    docs_used = sorted({o["doc"] for o in ops if "doc" in o})
+    docs_used = sorted({o["doc"] for o in ops if "doc" in o} | {o["doc_b"] for o in ops if o.get("doc_b")})
     if len(docs_used) > 1:
         for d in docs_used:
-            out.append(with_ops([dict(x, doc=d) if "doc" in x else x for x in ops]))
+            out.append(with_ops([dict(x, doc=d, **({"doc_b": d} if x.get("doc_b") else {})) if "doc" in x else x for x in ops]))
     if spec.get("out_mode") != "explicit":
         s = copy.deepcopy(spec)
         s["out_mode"] = "explicit"
